@@ -45,7 +45,12 @@ def B(x):
 
 
 class Models13(K.ControlModels):
-    pass
+    def contract_for(self, ex, path, f, args, kw):
+        if f.qualname == 'parse_keywords' and path.heap.get(('g', 'pk_contract')) is not None:
+            # contract of parse_keywords inside the result-selecting chain: some key -> value map (the parser itself: C13/parse_keywords@...)
+            self.glog_add(path, 'pk_calls', (args[0], dict(kw)))
+            return [(path, path.heap[('g', 'pk_contract')])]
+        return K.ControlModels.contract_for(self, ex, path, f, args, kw)
 
 
 def make_models():
@@ -99,33 +104,42 @@ def unit_single(which):
             ctx.oblige('post.asks_for_exactly_that_key', p,
                        z3.Implies(z3.And(z3.Not(pre['lost0']), pre['is_none']),
                                   B(len(writes) == 1) if len(writes) != 1 else writes[0].t == want))
-            cbs = [c for c in chained if c[1] == 'addCallback']
-            ctx.oblige('post.parse_then_select', p, B(len(cbs) >= 2))
-            if len(cbs) < 2:
+            # the reply travels through the callbacks added to the command's Deferred, in order (A3).  The chain is
+            # *run* on a symbolic reply (parse_keywords through its contract) instead of being matched structurally,
+            # so merging / splitting callbacks is not noticed, only what comes out.
+            kws = ctx.models.glog(p, 'chained_kw')
+            cbs = [(c[2], kws[i] if i < len(kws) else {}) for i, c in enumerate(chained) if c[1] == 'addCallback']
+            ctx.oblige('post.reply_is_processed', p, B(len(cbs) >= 1))
+            if not cbs or which != 'get_info_single':
                 continue
-            first = cbs[0][2][0]
-            ctx.oblige('post.reply_parsed_by_parse_keywords', p, B(isinstance(first, VFunc) and first.qualname == 'parse_keywords'))
-            if which == 'get_info_single':
-                # the requested key is the only line start that opens a value: key_hints is the one-element list [key]
-                kws = ctx.models.glog(p, 'chained_kw')
-                idx = [i for i, c in enumerate(chained) if c[1] == 'addCallback'][0]
-                hints = kws[idx].get('key_hints') if idx < len(kws) else None
-                items = ex.list_items(p, hints) if isinstance(hints, VList) else None
-                ok = items is not None and len(items) == 1 and isinstance(items[0], VStr)
-                ctx.oblige('post.only_the_requested_key_may_open_a_value', p, zand(B(ok), items[0].t == key) if ok else B(False),
-                           clause='a multi-line value of a single requested key comes back with all its lines intact and in order')
-            sel = cbs[-1][2][0]
-            # apply the selecting callback to a symbolic result dict
             m = TMap(TStr(), TStr(), ordered=True).fresh('values')
             opt = TOpt(TStr())
             q = p.fork()
-            if which == 'get_info_single':
-                q.assume(z3.Not(opt.is_none(z3.Select(m.t, key))))
-                for q2, v in ex.call(q, sel, [m], {}):
-                    ctx.oblige('post.returns_the_value_of_the_requested_key', q2,
-                               B(False) if isinstance(v, Raise) or not isinstance(v, VStr)
-                               else v.t == opt.dt.accessor(1, 0)(z3.Select(m.t, key)),
-                               clause='maps the requested key to exactly its value')
+            q.assume(z3.Not(opt.is_none(z3.Select(m.t, key))))
+            q.heap[('g', 'pk_contract')] = m
+            raw = VStr(z3.String('raw_reply'))
+            states = [(q, raw)]
+            for args_, kw_ in cbs:
+                nxt = []
+                for q1, val in states:
+                    if isinstance(val, Raise):
+                        nxt.append((q1, val))
+                        continue
+                    nxt.extend(ex.call(q1, args_[0], [val] + list(args_[1:]), dict(kw_)))
+                states = nxt
+            for q2, v in states:
+                pk = ctx.models.glog(q2, 'pk_calls')
+                okp = len(pk) == 1 and isinstance(pk[0][0], VStr) and z3.eq(pk[0][0].t, raw.t)
+                ctx.oblige('post.reply_parsed_once_by_parse_keywords', q2, B(okp))
+                hints = pk[0][1].get('key_hints') if okp else None
+                items = ex.list_items(q2, hints) if isinstance(hints, VList) else None
+                ok = items is not None and len(items) == 1 and isinstance(items[0], VStr)
+                ctx.oblige('post.only_the_requested_key_may_open_a_value', q2, zand(B(ok), items[0].t == key) if ok else B(False),
+                           clause='a multi-line value of a single requested key comes back with all its lines intact and in order')
+                ctx.oblige('post.returns_the_value_of_the_requested_key', q2,
+                           B(False) if isinstance(v, Raise) or not isinstance(v, VStr)
+                           else v.t == opt.dt.accessor(1, 0)(z3.Select(m.t, key)),
+                           clause='maps the requested key to exactly its value')
     return run
 
 
@@ -333,9 +347,9 @@ def make_models_for(unit_name):
     return ParseModels() if 'parse_keywords@' in unit_name else Models13()
 
 
-def units():
+def units(tier='quick'):
     out = [('C13/unquote', unit_unquote()), ('C13/get_info_single', unit_single('get_info_single'))]
-    for n in (1, 2, 3):
+    for n in ((1, 2, 3) if tier == 'quick' else (1, 2, 3, 4)):
         for part in _partitions(n):
             tag = '+'.join(''.join(str(i) for i in blk) for blk in part)
             for ml in (True, False):
